@@ -73,6 +73,11 @@ def run(ctx):
                             'connections of the bus share one table')
     registered_implies_unregistered(ctx)
     owner_table_premise(ctx)
+    # "reaches exactly the connections that hold a rule matching it": a rule
+    # the bus refused (AddMatch answered with an error) must not be left in
+    # the router
+    from .c12 import filed_when_complete
+    filed_when_complete(ctx, 'C14.D5')
     ctx.floor('C14.D1', 20)
     ctx.floor('C14.D2', 3)
     ctx.floor('C14.D3', 2)
@@ -518,6 +523,32 @@ def stub_skeleton(ctx):
                     used[n.args[1].value] = (
                         sig.value if isinstance(sig, ast.Constant) else '',
                         fi.qualname)
+    # the same through the interpreter (a stub may go through a helper that
+    # supplies the bus path / interface, or take them from constants)
+    known = prog.known_funcs() or set()
+    for fi in cls.methods.values():
+        if fi.qualname not in known and known:
+            continue            # helpers are seen inlined in their callers
+        try:
+            paths = Interp(prog, exc_edges=False, max_paths=3000).run(fi)
+        except AnalysisError:
+            continue
+        for p in paths:
+            for c in p.calls():
+                if not ((c[1] or '').endswith('.callRemote') or (
+                        kind(c[2]) in ('attr', 'bound') and
+                        str(c[2][2]).endswith('callRemote'))):
+                    continue
+                if len(c[3]) < 2 or not is_const(c[3][1]):
+                    continue
+                kw = dict(c[4])
+                if kw.get('interface') != C(spec.BUS_NAME):
+                    continue
+                sig = kw.get('signature')
+                used.setdefault(c[3][1][1], (
+                    sig[1] if sig is not None and is_const(sig) and
+                    isinstance(sig[1], str) else '', fi.qualname))
+
     def count_types(sig):
         # number of complete types of a simple signature (as used by the
         # stubs: basic codes only)
